@@ -3,6 +3,7 @@ package main
 import (
 	"encoding/json"
 	"strconv"
+	"strings"
 	"time"
 
 	"github.com/influxdata/influxql"
@@ -67,6 +68,41 @@ func c07Value(spec M) interface{} {
 	return struct{ Unknown string }{str(spec["ty"])}
 }
 
+// c07Rebind: see the call site.  Records the outcome of both statements: {first: ok|err, second: ok|err|panic}.
+func c07Rebind(text string, params map[string]interface{}, useNil bool) M {
+	r := M{}
+	p := guard(func() {
+		ps := influxql.NewParser(strings.NewReader(text + " ; " + text))
+		ps.SetParams(params)
+		_, err1 := ps.ParseStatement()
+		if err1 != nil {
+			r["first"] = "err"
+			return
+		}
+		r["first"] = "ok"
+		if tok, _, _ := ps.ScanIgnoreWhitespace(); tok != influxql.SEMICOLON {
+			r["first"] = "no-separator"
+			return
+		}
+		if useNil {
+			ps.SetParams(nil)
+		} else {
+			ps.SetParams(map[string]interface{}{})
+		}
+		st2, err2 := ps.ParseStatement()
+		if err2 != nil {
+			r["second"] = "err"
+		} else if st2 != nil {
+			r["second"] = "ok"
+			r["second_str"] = c06Clean(st2.String())
+		}
+	})
+	if p != "" {
+		r["panic"] = p
+	}
+	return r
+}
+
 func init() {
 	register("c07", &Suite{Run: func(c M) M {
 		o := M{}
@@ -79,6 +115,12 @@ func init() {
 		text := render(list(c["toks"]))
 		o["text"] = c06Clean(text)
 		o["got"] = c06Parse("query", text, params, !noset)
+		// a history on ONE parser: the template is written twice (`T ; T`); the first statement is parsed with the
+		// bindings, then SetParams is called again with an empty map (even cases: nil) and the second statement is
+		// parsed: no binding is left, so a template with a placeholder must now fail.
+		if !noset && len(list(c["holes"])) > 0 && !strings.Contains(text, ";") { // one statement: the second copy holds the placeholder
+			o["rebind"] = c07Rebind(text, params, num(c["id"])%2 == 0)
+		}
 		for _, k := range []string{"mark", "inl"} {
 			if t := list(c[k]); t != nil {
 				lt := render(t)
